@@ -11,6 +11,7 @@ use domain::base::message_builder::MessageBuilder;
 use domain::base::name::Name;
 use domain::base::rdata::UnknownRecordData;
 use domain::base::record::{Record, Ttl};
+use domain::base::message_builder::StreamTarget;
 use domain::base::{Message, ParsedName, Rtype, StaticCompressor};
 use domain::net::client::cache;
 use domain::net::client::request::{
@@ -24,6 +25,12 @@ use std::pin::Pin;
 use std::str::FromStr;
 use std::sync::{Arc, Mutex};
 use std::time::Duration;
+
+// X15's binding helpers (abstract message of an octet string) are reused to
+// read what a request composes to on the wire
+#[path = "reqcompose.rs"]
+#[allow(dead_code, unused_imports)]
+pub mod reqcompose;
 
 //------------ the scripted upstream ------------------------------------------
 
@@ -62,12 +69,31 @@ impl SendRequest<RequestMessage<Vec<u8>>> for Mock {
         request_msg: RequestMessage<Vec<u8>>,
     ) -> Box<dyn GetResponse + Send + Sync> {
         let mut st = self.st.lock().unwrap();
-        if let Ok(m) = request_msg.to_message() {
+        // upstream sees the OCTETS the request composes into a transport's
+        // target (what net::client::stream puts on the wire), never
+        // to_message() or the trait's getters
+        if let Some(m) = wire_message(&request_msg) {
             st.calls.push(m);
         }
         let resp = st.next.clone();
         Box::new(MockReq { resp })
     }
+}
+
+/// The request as a stream transport serialises it: `append_message` into a
+/// `StreamTarget`, the message part of the buffer parsed again.
+pub fn wire_octets(req: &RequestMessage<Vec<u8>>) -> Option<Vec<u8>> {
+    let mut target = StreamTarget::new_vec();
+    req.append_message(&mut target).ok()?;
+    let s = target.as_stream_slice();
+    if s.len() < 2 || u16::from_be_bytes([s[0], s[1]]) as usize != s.len() - 2 {
+        return None;
+    }
+    Some(s[2..].to_vec())
+}
+
+pub fn wire_message(req: &RequestMessage<Vec<u8>>) -> Option<Message<Vec<u8>>> {
+    Message::from_octets(wire_octets(req)?).ok()
 }
 
 //------------ names ----------------------------------------------------------
@@ -245,15 +271,28 @@ fn b(v: &Value) -> bool {
     v.as_bool().unwrap_or(false)
 }
 
-/// The request the client sends for query `q`.
+/// The request the client sends for query `q`, constructed the way
+/// `q.route` says (Cache.tla): header bits already in the source message or
+/// set through `header_mut()`, a source with / without an OPT record, the
+/// EDNS setters in the order given.  Without a route: bits in the source, DO
+/// through `set_dnssec_ok(true)`.
 pub fn build_request(q: &Value, id: u16) -> RequestMessage<Vec<u8>> {
+    let route = &q["route"];
+    let has_route = route.is_object();
+    let src = &route["src"];
     let mut mb = MessageBuilder::new_vec();
     {
         let h = mb.header_mut();
         h.set_id(id);
-        h.set_rd(b(&q["rd"]));
-        h.set_ad(b(&q["ad"]));
-        h.set_cd(b(&q["cd"]));
+        if has_route {
+            h.set_rd(b(&src["rd"]));
+            h.set_ad(b(&src["ad"]));
+            h.set_cd(b(&src["cd"]));
+        } else {
+            h.set_rd(b(&q["rd"]));
+            h.set_ad(b(&q["ad"]));
+            h.set_cd(b(&q["cd"]));
+        }
         if q["op"].as_str() == Some("NOTIFY") {
             h.set_opcode(Opcode::NOTIFY);
         }
@@ -269,18 +308,43 @@ pub fn build_request(q: &Value, id: u16) -> RequestMessage<Vec<u8>> {
     if nq >= 2 {
         mb.push((&name_of("second.example"), Rtype::AAAA, qc)).expect("push question");
     }
-    let msg = mb.into_message();
+    let msg = match src["opt"].as_u64().unwrap_or(0) {
+        0 => mb.into_message(),
+        o => {
+            // the source already carries an OPT record (a forwarded query)
+            let mut ab = mb.additional();
+            ab.opt(|opt| {
+                opt.set_udp_payload_size(1232);
+                opt.set_dnssec_ok(o == 2);
+                Ok(())
+            })
+            .expect("push opt");
+            ab.into_message()
+        }
+    };
     let mut req = match RequestMessage::new(msg) {
         Ok(r) => r,
         Err(_) => {
-            // RequestMessage::new insists on a first question for QUERY;
-            // the question-less query is sent as opcode 0 with a header only
-            // through the multi-purpose constructor below
+            // RequestMessage::new insists on a first question for QUERY
             panic!("request without question cannot be built")
         }
     };
-    if b(&q["do"]) {
-        req.set_dnssec_ok(true);
+    if !has_route {
+        if b(&q["do"]) {
+            req.set_dnssec_ok(true);
+        }
+        return req;
+    }
+    for op in route["ops"].as_array().cloned().unwrap_or_default() {
+        let v = op[1].as_u64().unwrap_or(0);
+        match op[0].as_str().unwrap_or("") {
+            "rd" => req.header_mut().set_rd(v == 1),
+            "ad" => req.header_mut().set_ad(v == 1),
+            "cd" => req.header_mut().set_cd(v == 1),
+            "do" => req.set_dnssec_ok(v == 1),
+            "udp" => req.set_udp_payload_size(v as u16),
+            other => panic!("unknown route op {}", other),
+        }
     }
     req
 }
@@ -455,15 +519,26 @@ pub fn project_request(m: &Message<Vec<u8>>) -> Value {
         }
     }
     let op = if h.opcode() == Opcode::QUERY { "QUERY" } else if h.opcode() == Opcode::NOTIFY { "NOTIFY" } else { "OTHER" };
+    // the flag class, read from X15's abstract message of the octets: header
+    // bits, DO of the (first) OPT record of the additional section
+    let abs = reqcompose::project(m.as_slice());
+    let bit = |f: &str| abs["h"][f].as_u64() == Some(1);
+    let dok = abs["ar"]
+        .as_array()
+        .and_then(|ar| ar.iter().find(|r| r["t"].as_u64() == Some(41)))
+        .map(|r| r["ttl"][1].as_u64().unwrap_or(0) & 0x8000 != 0)
+        .unwrap_or(false);
     json!({"name": name, "cs": cs, "qtype": qt, "qclass": qc, "op": op, "nq": nq,
-           "ad": h.ad(), "cd": h.cd(), "do": m.opt().map(|o| o.dnssec_ok()).unwrap_or(false),
-           "rd": h.rd()})
+           "ad": bit("ad"), "cd": bit("cd"), "do": dok, "rd": bit("rd")})
 }
 
 /// How `project_request` shows the client's query `q` when the cache passed
 /// it on unchanged.
 pub fn expected_forward(q: &Value) -> Value {
     let mut f = q.clone();
+    if let Some(o) = f.as_object_mut() {
+        o.remove("route");
+    }
     if f["nq"] == json!(0) {
         f["name"] = json!("");
         f["qtype"] = json!("");
